@@ -551,7 +551,10 @@ type jFunc struct {
 }
 
 // jTypeVal is an abstract go/types.Type value; Origin tells what it was computed from.
-type jTypeVal struct{ Origin string } // "term", "rule", "param"
+type jTypeVal struct {
+	Origin string // "term", "rule", "param"
+	Index  int    // position of the term in its production (Origin "term")
+}
 
 // jGoText is rendered Go text with its syntactic category.
 type jGoText struct {
